@@ -80,6 +80,19 @@ var vTemplates = []struct {
 	{"Array(Nullable(", "))", vLeaf, 0},
 	{"Array(LowCardinality(", "))", vLeaf, 0},
 	{"", "", vLeaf, 0},
+	{"Enum8(", "=1)", vFree, 3},
+	{"Enum16(", " = 1)", vFree, 2},
+	{"Enum8(", ")", vFree, 4},
+	{"Enum8('a'=1, ", ")", vFree, 3},
+	{"Array(Enum8(", "=1))", vFree, 2},
+	{"Nullable(Enum16(", "))", vFree, 3},
+	{"FixedString(", ")", vFree, 3},
+	{"Map(", ")", vFree, 4},
+	{"Map(String", ")", vFree, 3},
+	{"Nullable(", ")", vFree, 3},
+	{"LowCardinality(", ")", vFree, 3},
+	{"DateTime64(3", ")", vFree, 3},
+	{"Decimal(9", ")", vFree, 3},
 	{"Interval", "", vFree, 4},
 	{"Tuple(", ")", vFree, 3},
 	{"Array(", ")", vFree, 3},
